@@ -223,8 +223,13 @@ class SimSocket:
                     s.peer.reset = True
         if self.peer is not None:
             self.peer.eof = True
-            if self.rx or self.linger0:  # unread data at close, or an abortive close (SO_LINGER 0) -> RST towards the peer
+            if self.rx:  # unread data at close -> RST towards the peer
                 self.peer.reset = True
+            if self.linger0:
+                # abortive close (SO_LINGER 0): RST instead of FIN, and what this side had accepted for sending but the peer
+                # has not read yet is discarded (on a real network: the part still in the send buffer / in flight)
+                self.peer.reset = True
+                del self.peer.rx[:]
         self.net.activity()
 
     def __del__(self):
